@@ -472,8 +472,8 @@ def build_groups(ctx):
 
     def rng_of(family, i):       # every configuration has its own stream: sizes of the families do not interact
         return _random.Random('%d/%s/%d' % (base, family, i))
-    n_single = ctx.budget(6, 48)
-    n_par = ctx.budget(1, 10)
+    n_single = ctx.budget(6, 40)
+    n_par = ctx.budget(1, 8)
     n_api = ctx.budget(1, 4)
     if os.environ.get('C14_SIZES'):      # debugging aid: "single,parallel,facade"
         n_single, n_par, n_api = [int(x) for x in os.environ['C14_SIZES'].split(',')]
